@@ -47,9 +47,10 @@ theorem afterAcquire_thr_self (s : State) (t : Tid) (x : Thr) :
     ((afterAcquire s t x).thr t).sawNote = x.sawNote ∧ ((afterAcquire s t x).thr t).out = x.out ∧
     (((afterAcquire s t x).thr t).loc = .wEnq ∨ ((afterAcquire s t x).thr t).loc = .wChk2 ∨
      ((afterAcquire s t x).thr t).loc = .nLocked ∨ ((afterAcquire s t x).thr t).loc = .sRel ∨
-     ((afterAcquire s t x).thr t).loc = .sRcLd) := by
+     ((afterAcquire s t x).thr t).loc = .sRcLd ∨ ((afterAcquire s t x).thr t).loc = .dWalk) := by
   unfold afterAcquire
   split
+  · simp
   · simp
   · simp
   · simp
